@@ -175,4 +175,61 @@ CHECKS = {
             {"harness": "VH_C03N", "quick": {"opts": 2}, "thorough": {"opts": 3}, "covers": ["C03N:probed"]},
         ],
     },
+    "C13": {
+        "explanation": "Symbolic execution of printOut (error branch), LWs.Write, errors.Join, the nested Entry.Warn diagnostic, appendError, "
+                       "gating and dualWriter.Get. Configurations (1-2 normal, 1-2 error, 0-1 per-level writer for Info or Warn; logger level "
+                       "among Error/Warn/Info/Debug/Off/Always) and the severity of each call are enumerated by the solver; every Write "
+                       "attempt consults a fresh symbolic fault bit, so each path stands for one assignment of fail/succeed to every "
+                       "attempt and all assignments are covered. Per call: returns normally; every selected destination attempted once, in "
+                       "order, with the identical complete payload; at most one diagnostic record, a warning, to the warning destinations, "
+                       "none when the failing record was a warning or warnings are not admitted; attempts bounded by |selected|+|warning "
+                       "set|; a final call with faults switched off is delivered normally (no sticky state).",
+        "bounds": {"quick": "1 faulty call + 1 recovery call; 6 severities", "thorough": "2 faulty calls + 1 recovery call"},
+        "outside": "longer call sequences; writers that panic",
+        "assumptions": ["os.Stdout/os.Stderr are recording sinks"],
+        "runs": [
+            {"harness": "VH_C13", "quick": {"calls": 1}, "thorough": {"calls": 2}, "covers": ["C13:diagnostic", "C13:recovered"]},
+        ],
+    },
+    "C02": {
+        "explanation": "Symbolic execution of argsToAttrs, NewAttr/Group/buildAttrs, Println, log1/logContext/collectArgs, print/printImpl, "
+                       "serializeAttrs, kvp/gkvp.SerializeValueTo, appendValue and the per-kind renderers, printOut, dualWriter.Get, "
+                       "LWs.Write, and (colored mode) the real x/net/html-based translator. The argument list has 0..N elements whose kind "
+                       "the solver chooses among 14 (string incl. empty, int, bool, nil, error, []byte, struct via the fallback "
+                       "formatter, Attr with symbolic key, Attrs (empty or not), []Attr, Group nested to the depth bound incl. empty "
+                       "groups, a nil Attr interface, Duration, Stringer) - which covers dangling keys, non-string values in key "
+                       "position, empty keys and a non-string first argument to Println; the message is a symbolic byte string when there "
+                       "are no further arguments; 3 formats; verbs Error..Fail, Print, Println, Panic (no-interrupt). Asserted: the call "
+                       "returns; admitted => one Write per selected destination, payload ends in newline, nothing elsewhere; not admitted "
+                       "=> nothing anywhere; blank Print/Println => exactly one newline byte. A second run makes all 64 flag bits symbolic.",
+        "bounds": {"quick": "message <= 1 byte (all values); <= 1 argument of any kind x 11 verbs, 2 arguments x 3 verbs; group depth 1; logger levels Trace/Warn/Off; flags run: <= 1 argument, depth 0",
+                   "thorough": "message <= 2 bytes; <= 3 arguments; group depth 2"},
+        "outside": "values whose own methods panic, cyclic values (excluded by the property); longer argument lists",
+        "assumptions": ["time.Now is a fixed instant; runtime.Callers answered from the engine's call stack"],
+        "runs": [
+            {"harness": "VH_C02", "quick": {"msg": 1, "args": 2, "depth": 1}, "thorough": {"msg": 2, "args": 3, "depth": 2},
+             "covers": ["C02:returned", "C02:admitted", "C02:blank"]},
+            {"harness": "VH_C02", "quick": {"msg": 0, "args": 1, "depth": 0, "symflags": 1}, "thorough": {"msg": 1, "args": 1, "depth": 1, "symflags": 1},
+             "covers": ["C02:returned", "C02:admitted"]},
+        ],
+    },
+    "C07": {
+        "explanation": "Execution by the symbolic engine of collectArgs, walkParentAttrs, fromCtx, SetContextKeys, argsToAttrs, serializeAttrs "
+                       "(sort comparator + dedupeSlice) with the real slices.SortFunc and the real context.Value chain. The shape dimensions "
+                       "are enumerated by the solver: chain depth, number of own attributes per logger, every key of every attribute over the "
+                       "alphabet {a,b,c} (so every collision pattern inside the bound occurs), string vs Stringer context keys, present or "
+                       "absent in the context, nil context, the inherit flag, key/value pairs vs Attr values at the call site. The observed "
+                       "(key,value) sequence of the logfmt record must equal the reference merge of the statement. G: the same inside a "
+                       "group. L: 13..14 call-site attributes over two keys (8192+ layouts) through the real pdqsort.",
+        "bounds": {"quick": "chain depth <= 2, <= 1 own attribute per logger, <= 1 context key, <= 2 call-site attributes; groups of <= 3 members; 13 attributes over {a,b}",
+                   "thorough": "chain depth <= 3, <= 2 own attributes, <= 2 context keys, <= 3 call-site attributes; 13..15 attributes"},
+        "outside": "attribute lists of 17..64 elements; JSON and colored observation of the same order (C04/C06 decode those formats)",
+        "assumptions": ["values are distinct integers tagging their source; observation through a logfmt logger without caller field"],
+        "runs": [
+            {"harness": "VH_C07", "quick": {"chain": 2, "own": 1, "ctxkeys": 1, "site": 2}, "thorough": {"chain": 3, "own": 2, "ctxkeys": 2, "site": 3},
+             "covers": ["C07:compared"]},
+            {"harness": "VH_C07G", "quick": {"members": 3}, "thorough": {"members": 4}, "covers": ["C07G:compared"]},
+            {"harness": "VH_C07L", "quick": {"extra": 1}, "thorough": {"extra": 3}, "covers": ["C07L:compared"]},
+        ],
+    },
 }
